@@ -690,6 +690,42 @@ def _from_format(ctx) -> None:
            f"returns {[nun(x.value) for x in r]}", fm.rel)
 
 
+def _weekday_anchor(ctx) -> None:
+    """WEEKDAY.tabulated: a weekday token next to a date does not move the date out of its week - the block of
+    Formatter._check_parsed that handles parsed['day_of_week'] is run by the checker's interpreter in the calendar world of
+    rules/calstub.py (DateTime.next interpreted from datetime.py) for every date of a fortnight x every weekday: the date
+    left in `validated` must be the day with that weekday in the Monday-based week of the date given."""
+    import datetime as _dt
+    from ..rules import calstub, minieval
+    m = pmod("formatting.formatter")
+    fn = m.func("Formatter._check_parsed")
+    blocks = [n for n in core.walk_fn(fn) if isinstance(n, ast.If) and "day_of_week" in un(n.test) and any(isinstance(c.func, ast.Attribute) and c.func.attr in ("next", "previous")
+              for st in n.body for c in ast.walk(st) if isinstance(c, ast.Call))]
+    if len(blocks) != 1:
+        ctx.unverified("WEEKDAY.tabulated", "Formatter._check_parsed", f"{len(blocks)} blocks handling parsed['day_of_week'] through next()/previous() found", m.loc(fn))
+        return
+    dm = pmod("datetime")
+    bad, n = [], 0
+    try:
+        for off in range(14):
+            d = _dt.date(2021, 2, 22) + _dt.timedelta(days=off)
+            for wd in range(7):
+                w = calstub.World(dm, "DateTime", extra=pmod("date").methods("Date"))
+                env = {"parsed": {"day_of_week": wd}, "validated": {"year": d.year, "month": d.month, "day": d.day}, "now": w.datetime(_dt.date(1999, 9, 9), 0, 1), "self": None}
+                g = dict(w.glob)
+                minieval.run([blocks[0]], env, g)
+                v = env["validated"]
+                want = d - _dt.timedelta(days=d.weekday()) + _dt.timedelta(days=wd)
+                n += 1
+                if (v["year"], v["month"], v["day"]) != (want.year, want.month, want.day):
+                    bad.append(f"{d} ({d.strftime('%a')}) with weekday {wd}: {v['year']}-{v['month']:02d}-{v['day']:02d} (expected {want})")
+    except calstub.ERRORS + (ValueError,) as e:
+        ctx.unverified("WEEKDAY.tabulated", "Formatter._check_parsed", f"outside the checker's interpreter: {type(e).__name__}: {e}", m.loc(blocks[0]))
+        return
+    ctx.ob("WEEKDAY.tabulated", "Formatter._check_parsed", not bad,
+           f"{n} (date, weekday) cases: " + (f"wrong: {bad[:3]}" if bad else "always the day with that weekday in the week of the date"), m.loc(blocks[0]))
+
+
 def run(ctx) -> None:
     ctx.explanation = EXPLANATION
     m = pmod(FMT)
@@ -703,6 +739,7 @@ def run(ctx) -> None:
     ctx.step(_offsets, ctx, m)
     ctx.step(_zone_and_extraction, ctx, m, T)
     ctx.step(_named_formats, ctx)
+    ctx.step(_weekday_anchor, ctx)
     ctx.step(_from_format, ctx)
     ctx.step(_defaulting, ctx, m)
     ctx.step(_timestamp_fraction, ctx, m)
